@@ -324,10 +324,98 @@ fn analyze(p: &Value, limit: usize) -> Value {
     out
 }
 
+/// rows[j] is dead if some earlier rows[i] finds a match inside every string rows[j] matches.
+/// For each j returns the first such i (or null) with the number of product states explored.
+fn shadow(v: &Value) -> Value {
+    let pats: Vec<String> = v.get("shadow").and_then(|x| x.as_array()).unwrap().iter().map(|x| x.as_str().unwrap().to_string()).collect();
+    let window = v.get("window").and_then(|x| x.as_u64()).unwrap_or(1000) as usize;
+    let cfg = |anchored: bool| {
+        dense::Config::new()
+            .match_kind(MatchKind::All)
+            .start_kind(if anchored { StartKind::Anchored } else { StartKind::Unanchored })
+            .unicode_word_boundary(true)
+            .dfa_size_limit(Some(200 << 20))
+            .determinize_size_limit(Some(400 << 20))
+    };
+    let build = |re: &str, anchored: bool| {
+        dense::Builder::new()
+            .configure(cfg(anchored))
+            .syntax(regex_automata::util::syntax::Config::new().utf8(false))
+            .thompson(regex_automata::nfa::thompson::Config::new().utf8(false))
+            .build(re)
+    };
+    let mut search = Vec::new();
+    for p in &pats {
+        search.push(build(p, false).ok());
+    }
+    let mut out = Vec::new();
+    let mut total_states: usize = 0;
+    for j in 0..pats.len() {
+        let mut dead_by: Option<usize> = None;
+        let dj = match &search[j] { Some(d) => d, None => { out.push(json!({"j": j, "error": "dfa"})); continue; } };
+        let lo = if j > window { j - window } else { 0 };
+        for i in lo..j {
+            let di = match &search[i] { Some(d) => d, None => continue };
+            // BFS for a line s such that r_j finds a match in s and r_i finds none
+            let sj = match dj.start_state(&StartConfig::new().anchored(Anchored::No)) { Ok(s) => s, Err(_) => continue };
+            let si = match di.start_state(&StartConfig::new().anchored(Anchored::No)) { Ok(s) => s, Err(_) => continue };
+            let mut seen: std::collections::HashSet<(StateID, bool, StateID)> = std::collections::HashSet::new();
+            let mut q = VecDeque::new();
+            seen.insert((sj, false, si));
+            q.push_back((sj, false, si));
+            let mut counter = false;
+            let limit = 600000usize;
+            while let Some((a, mj, b)) = q.pop_front() {
+                let mj_eoi = mj || dj.is_match_state(dj.next_eoi_state(a));
+                if mj_eoi && !di.is_match_state(di.next_eoi_state(b)) {
+                    counter = true;
+                    break;
+                }
+                if seen.len() > limit {
+                    counter = true; // give up: treat as not shadowed
+                    break;
+                }
+                for byte in 0u16..256 {
+                    let byte = byte as u8;
+                    let nb = di.next_state(b, byte);
+                    if di.is_match_state(nb) || di.is_quit_state(nb) {
+                        // r_i has matched: every extension of this line is covered by row i
+                        continue;
+                    }
+                    let (na, nmj) = if mj {
+                        (a, true)
+                    } else {
+                        let na = dj.next_state(a, byte);
+                        if dj.is_quit_state(na) { continue; }
+                        if dj.is_match_state(na) { (na, true) } else { (na, false) }
+                    };
+                    if !nmj && dj.is_dead_state(na) {
+                        continue;
+                    }
+                    if seen.insert((na, nmj, nb)) {
+                        q.push_back((na, nmj, nb));
+                    }
+                }
+            }
+            total_states += seen.len();
+            if !counter {
+                dead_by = Some(i);
+                break;
+            }
+        }
+        out.push(json!({"j": j, "dead_by": dead_by}));
+    }
+    json!({"shadow": out, "product_states": total_states})
+}
+
 fn main() {
     let mut s = String::new();
     std::io::stdin().read_to_string(&mut s).unwrap();
     let v: Value = serde_json::from_str(&s).expect("rxtab: bad input json");
+    if v.get("shadow").is_some() {
+        println!("{}", shadow(&v));
+        return;
+    }
     let limit = v.get("limit").and_then(|x| x.as_u64()).unwrap_or(4000) as usize;
     let mut res = Vec::new();
     if let Some(ps) = v.get("patterns").and_then(|x| x.as_array()) {
